@@ -260,8 +260,12 @@ func (m *Message) wrapErrorUnpack(src []byte) error {
 func (m *Message) unpack(src []byte) (string, error) {
 	var off int
 
-	// reset fields that were set
+	// reset fields that were set: start from fresh fields so that no value
+	// (or subfield) set or unpacked earlier survives in a field that is not
+	// part of this message
 	m.fieldsMap = map[int]struct{}{}
+	m.fields = m.spec.CreateMessageFields()
+	m.cachedBitmap = nil
 
 	// This method implicitly also sets m.fieldsMap[bitmapIdx]
 	m.bitmap().Reset()
